@@ -101,9 +101,20 @@ def api_find_peaks(d, e, m, pos, tr):
             col('peak_value', 'free', np.asarray(t['peak_value'])[o])], {}
 
 
-def _finder(which):
+def _finder(which, integer=None):
     def f(d, e, m, pos, tr):
         from photutils.detection import DAOStarFinder, IRAFStarFinder, StarFinder
+        if integer is not None:
+            # raw counts in an integer dtype, with stars one to two kernel radii from the edges of the original frame (the convolution
+            # beyond the frame edge is a zero fill, which is what makes the finders consistent with zero-padding)
+            x0, y0, w0, h0 = _orig_frame(d, tr)
+            d = d.copy()
+            yy, xx = np.mgrid[:d.shape[0], :d.shape[1]]
+            for (sx, sy) in ((21, 5), (5, 12), (w0 - 6, 30), (30, h0 - 6)):
+                d += 150.0 * np.exp(-0.5 * (((xx - x0 - sx) / 1.5) ** 2 + ((yy - y0 - sy) / 1.5) ** 2))
+            d = np.rint(np.clip(d + 20.0, 0, None)).astype(integer)
+            inside = np.zeros(d.shape, dtype=bool); inside[y0:y0 + h0, x0:x0 + w0] = True
+            d[~inside] = 0
         if which == 'dao':
             t = DAOStarFinder(8.0, 3.5)(d, mask=m)
         elif which == 'iraf':
@@ -280,6 +291,7 @@ def api_model_image(d, e, m, pos, tr):
 
 APIS = {'aperture_photometry': (api_aperture_photometry, True), 'aperture_stats': (api_aperture_stats, True), 'find_peaks': (api_find_peaks, True),
         'daofinder': (_finder('dao'), False), 'iraffinder': (_finder('iraf'), False), 'starfinder': (_finder('star'), False),
+        'daofinder_int': (_finder('dao', np.int32), False), 'iraffinder_int': (_finder('iraf', np.uint16), False), 'starfinder_int': (_finder('star', np.int16), False),
         'daofinder_excl_wide': (_finder_excl('dao_wide'), False), 'daofinder_excl_tall': (_finder_excl('dao_tall'), False),
         'starfinder_excl_rect': (_finder_excl('star_rect'), False),
         'segmentation_catalog': (api_segmentation, True), 'profiles': (api_profiles, True), 'centroids': (api_centroids, True), 'model_image': (api_model_image, True)}
